@@ -18,8 +18,8 @@ LEVEL_RULE = (
 ASSUMPTIONS = ["RDKit BondType enum values distinguish single/double/triple/aromatic bond orders"]
 EXHAUSTIVE = True
 BOUNDS = {
-    "quick": "symbols 4 x ids {none,0..12} x prefixes {none,-,=,#,:} x weights {none,scalar,list}; all ordered pairs; 7 construction routes (constructor, token parser x2, terminal, deepcopy, Molecule.elements copy, MolGen copy) + temporaries with short lifetimes",
-    "thorough": "as quick plus ids {13..20, 99, 007 (zero padded)}, scalar weight 0, and get_compatible_bond_descriptor_ids against the whole universe for every descriptor",
+    "quick": "symbols 4 x ids {none,0..20,99,007} x weights {none,scalar,list,zero} x prefixes {none,-,=,#,:} x weights {none,scalar,list}; all ordered pairs; 7 construction routes (constructor, token parser x2, terminal, deepcopy, Molecule.elements copy, MolGen copy) + temporaries with short lifetimes",
+    "thorough": "as quick plus ids {21..32, 100, 255, 1000, 00, 012}, tiny scalar weight",
 }
 CASE_TIMEOUT = {"quick": 300, "thorough": 900}
 
@@ -29,12 +29,12 @@ ORDER = {"": 1, "-": 1, "=": 2, "#": 3, ":": 1.5}
 
 
 def universe(tier):
-    ids = [None] + list(range(13))
+    ids = [None] + list(range(13)) + list(range(13, 21)) + [99, "007"]
     if tier == "thorough":
-        ids += list(range(13, 21)) + [99, "007"]
-    wforms = ["none", "scalar", "list"]
+        ids += list(range(21, 33)) + [100, 255, 1000, "00", "012"]
+    wforms = ["none", "scalar", "list", "zero"]
     if tier == "thorough":
-        wforms.append("zero")
+        wforms += ["tiny"]
     out = []
     for sym in SYMS:
         if sym == "":
@@ -54,6 +54,8 @@ def text_of(d):
         t += "|2.5|"
     elif w == "zero":
         t += "|0|"
+    elif w == "tiny":
+        t += "|1e-9|"
     elif w == "list":
         t += "|1 0 3.5|"
     return t + "]"
@@ -240,7 +242,7 @@ def eval_case(kind, data):
 
         lst = [o for (_, _, o) in objs]
         descs = [d for (d, _, _) in objs]
-        stride = 1 if tier == "thorough" else 7
+        stride = 1
         n = 0
         for k in range(0, len(objs), stride):
             a, ra, oa = objs[k]
